@@ -5,6 +5,9 @@ package main
 // (cvc5 --solve-bv-as-int=sum for word-level arithmetic, z3-new).
 
 import (
+	"sync"
+	"sort"
+	"crypto/sha256"
 	"bufio"
 	"bytes"
 	"fmt"
@@ -28,6 +31,7 @@ func (r SatResult) String() string { return [...]string{"unsat", "sat", "unknown
 
 type SolverStats struct {
 	Queries     int
+	CacheHits   int
 	Sat         int
 	Unsat       int
 	Unknown     int
@@ -537,6 +541,18 @@ func (s *Solver) CheckSlice(conj []*Term, extra *Term, wantModel bool) (SatResul
 	}
 	t0 := time.Now()
 	s.Stats.Queries++
+	ckey, cacheable := queryKey(conj, extra, s.PreferInt)
+	if cacheable {
+		if e, ok := queryCacheGet(ckey); ok && (e.res == Unsat || !wantModel || e.model != nil) {
+			s.Stats.CacheHits++
+			if e.res == Sat {
+				s.Stats.Sat++
+			} else {
+				s.Stats.Unsat++
+			}
+			return e.res, e.model
+		}
+	}
 	var lines []string
 	var vars []*Term
 	seen := map[int]bool{}
@@ -667,6 +683,9 @@ func (s *Solver) CheckSlice(conj []*Term, extra *Term, wantModel bool) (SatResul
 	default:
 		s.Stats.Unknown++
 	}
+	if cacheable && res != Unknown {
+		queryCachePut(ckey, queryCacheEntry{res: res, model: model})
+	}
 	d := time.Since(t0).Seconds()
 	if dir := os.Getenv("SYMGO_SLOWQ"); dir != "" && d > 0.3 {
 		os.WriteFile(fmt.Sprintf("%s/q%d_%s_%.1fs.smt2", dir, s.Stats.Queries, res, d), []byte(strings.Join(lines, "\n")+"\n(check-sat)\n"), 0o644)
@@ -676,4 +695,63 @@ func (s *Solver) CheckSlice(conj []*Term, extra *Term, wantModel bool) (SatResul
 		s.Stats.MaxQuerySec = d
 	}
 	return res, model
+}
+
+
+// ---------------------------------------------------------------- query cache
+//
+// Solver verdicts are memoised across paths and workers, keyed by the structural hashes of the
+// asserted conjuncts (order-insensitive). Only definite answers are stored; a cached answer is the
+// answer the solver gave to exactly this set of assertions.
+
+type queryCacheEntry struct {
+	res   SatResult
+	model map[string]*big.Int
+}
+
+var (
+	queryCacheMu  sync.RWMutex
+	queryCacheTab = map[[32]byte]queryCacheEntry{}
+	queryCacheOff = os.Getenv("SYMGO_NOCACHE") != ""
+)
+
+func queryKey(conj []*Term, extra *Term, preferInt bool) ([32]byte, bool) {
+	if queryCacheOff {
+		return [32]byte{}, false
+	}
+	hs := make([][16]byte, 0, len(conj)+1)
+	for _, c := range conj {
+		hs = append(hs, c.structHash())
+	}
+	if extra != nil && !extra.IsTrue() {
+		hs = append(hs, extra.structHash())
+	}
+	sort.Slice(hs, func(i, j int) bool { return bytes.Compare(hs[i][:], hs[j][:]) < 0 })
+	h := sha256.New()
+	var prev [16]byte
+	for i, x := range hs {
+		if i > 0 && x == prev {
+			continue
+		}
+		h.Write(x[:])
+		prev = x
+	}
+	var k [32]byte
+	copy(k[:], h.Sum(nil))
+	return k, true
+}
+
+func queryCacheGet(k [32]byte) (queryCacheEntry, bool) {
+	queryCacheMu.RLock()
+	e, ok := queryCacheTab[k]
+	queryCacheMu.RUnlock()
+	return e, ok
+}
+
+func queryCachePut(k [32]byte, e queryCacheEntry) {
+	queryCacheMu.Lock()
+	if old, ok := queryCacheTab[k]; !ok || (old.model == nil && e.model != nil) {
+		queryCacheTab[k] = e
+	}
+	queryCacheMu.Unlock()
 }
